@@ -320,3 +320,32 @@ Lemma repaired_on_witnesses :
   decide gen_tables witness_late = RThrow WrongType /\ evaluates gen_tables witness_late = false /\
   decide gen_tables witness_never = RThrow WrongType.
 Proof. vm_compute. repeat split; reflexivity. Qed.
+
+(* ------------------------------------------------------------------ declared keyword types *)
+(* keywords.hpp declares every keyword with the type of its documented default (and `method` as a
+   DimensionReductionMethod): finite, by evaluation *)
+Fixpoint kw_assoc (k : kwid) (l : list (kwid * vtype)) : option vtype :=
+  match l with
+  | [] => None
+  | (k', t) :: rest => if Nat.eqb k k' then Some t else kw_assoc k rest
+  end.
+
+Definition opt_vtype_eqb (a b : option vtype) : bool :=
+  match a, b with
+  | Some x, Some y => vtype_eqb x y
+  | None, None => true
+  | _, _ => false
+  end.
+
+Lemma gen_kwtypes_checked :
+  forallb (fun k => opt_vtype_eqb (kw_assoc k gen_kwtypes) (kw_assoc k doc_kwtypes)) (seq 0 22) = true /\
+  map fst gen_kwtypes = seq 0 22.
+Proof. vm_compute. split; reflexivity. Qed.
+
+Lemma gen_kwtypes_agree : forall k, k < 22 -> kw_assoc k gen_kwtypes = kw_assoc k doc_kwtypes.
+Proof.
+  intros k H. destruct gen_kwtypes_checked as [A _]. rewrite forallb_forall in A.
+  assert (I : In k (seq 0 22)) by (apply in_seq; lia).
+  specialize (A k I). destruct (kw_assoc k gen_kwtypes) as [x|], (kw_assoc k doc_kwtypes) as [y|];
+    cbn in A; try discriminate; auto. apply vtype_eqb_eq in A. now subst.
+Qed.
